@@ -1,11 +1,23 @@
 //! One monitor per property.
 use crate::monitor::Ctx;
 
+pub mod c01;
+pub mod c02;
+pub mod c03;
+pub mod c04;
+pub mod c06;
+pub mod c07;
 pub mod c11;
 pub mod c19;
 
 pub fn run(ctx: &mut Ctx) -> bool {
     match ctx.prop.clone().as_str() {
+        "C01" => c01::run(ctx),
+        "C02" => c02::run(ctx),
+        "C03" => c03::run(ctx),
+        "C04" => c04::run(ctx),
+        "C06" => c06::run(ctx),
+        "C07" => c07::run(ctx),
         "C11" => c11::run(ctx),
         "C19" => c19::run(ctx),
         _ => return false,
